@@ -32,6 +32,19 @@ def load_known():
         return []
 
 
+def pool_map(fn, args, nproc, chunksize=1):
+    """map over worker processes; a worker that dies (killed from outside, e.g. by the kernel when memory runs out)
+    is a machinery failure - never a hang and never a verdict."""
+    import concurrent.futures
+    from concurrent.futures.process import BrokenProcessPool
+    args = list(args)
+    try:
+        with concurrent.futures.ProcessPoolExecutor(max(1, min(nproc, len(args) or 1))) as ex:
+            return list(ex.map(fn, args, chunksize=chunksize))
+    except BrokenProcessPool as e:
+        raise MachineryError("a worker process died while replaying (killed from outside, e.g. out of memory): %s" % e)
+
+
 class Ctx:
     """One run of one property's check."""
 
